@@ -7,7 +7,15 @@ import Driver.Util
 valid-UTF-8 lines of `out` for which the real `char::is_other()` holds (the compiled model contains
 no Unicode table); `o|e` = the test validates stdout (no inline configuration) or stderr
 (` {output_stream: stderr}`); `c` = the test was read from a Cram document and is written as
-Markdown (`update --convert markdown`: ` {output_stream: combined, keep_crlf: true}`). -/
+Markdown (`update --convert markdown`: ` {output_stream: combined, keep_crlf: true}`).
+
+`genupd <a|u> <others> <hex cmd> <origs> <result> <diff> <hex out> <code>` → hex of the text
+`generate_testcase` returns for a test WITH expectations (`Gen.generateTestcaseUpd`) | `crash`.
+`origs` = `_` (no expectations) or the comma separated original texts of the expectations (hex, `-`
+= empty text); `result` = `ok` | `mal` | `inv:<actual>`; `diff` = `_` (no entries; required unless
+`mal`) or comma separated entries `m<ei>:<l>.<l>…` (MatchedExpectation `ei` holding these lines),
+`u<ei>` (UnmatchedExpectation), `x<l>.<l>…` (UnexpectedLines), lines as indices into
+`split_at_newline(out)`; `out` = the stream the test is validated against; `code` = `output.exit_code`. -/
 open Scrut Scrut.Utf8 Scrut.Esc Scrut.Gen
 namespace Driver.GenerateOps
 
@@ -30,6 +38,49 @@ def opGen (args : List String) : String :=
       let isOther : Char → Bool := fun ch => oth.contains ch.toNat
       match create fmt mode isOther cfg cmd out c with
       | some doc => hex (utf8 doc)
+      | none => "crash"
+    | _, _, _, _, _, _, _ => "bad-op"
+  | _ => "bad-op"
+
+/-- `_` = empty list, otherwise comma separated items -/
+def parseList {α : Type} (item : String → Option α) (s : String) : Option (List α) :=
+  if s == "_" then some [] else (s.splitOn ",").mapM item
+
+/-- `<l>.<l>…` (decimal), the empty string = no lines -/
+def parseLineIdx (s : String) : Option (List Nat) :=
+  if s.isEmpty then some [] else (s.splitOn ".").mapM String.toNat?
+
+def parseDL (s : String) : Option Diff.DL :=
+  match s.toList with
+  | 'm' :: rest =>
+    match (String.ofList rest).splitOn ":" with
+    | [ei, ls] => do
+      let ei ← ei.toNat?
+      let ls ← parseLineIdx ls
+      pure (.matched ei ls)
+    | _ => none
+  | 'u' :: rest => (String.ofList rest).toNat?.map .unmatched
+  | 'x' :: rest => (parseLineIdx (String.ofList rest)).map .unexpected
+  | _ => none
+
+def parseUpdResult (kind diff : String) : Option UpdResult :=
+  if kind == "ok" then (if diff == "_" then some .ok else none)
+  else if kind == "mal" then (parseList parseDL diff).map .malformed
+  else match kind.splitOn ":" with
+    | ["inv", a] => if diff == "_" then a.toInt?.map .invalidExit else none
+    | _ => none
+
+def opGenUpd (args : List String) : String :=
+  match args with
+  | [m, others, hcmd, origs, kind, diff, hout, code] =>
+    match (if m == "a" then some Mode.ascii else if m == "u" then some Mode.unicode else none),
+          parseOthers others, (unhex hcmd).bind utf8Decode,
+          parseList (fun h => (unhex h).bind utf8Decode) origs,
+          parseUpdResult kind diff, unhex hout, code.toInt? with
+    | some mode, some oth, some cmd, some origs, some res, some out, some c =>
+      let isOther : Char → Bool := fun ch => oth.contains ch.toNat
+      match generateTestcaseUpd mode isOther cmd origs res (Newline.splitAtNewline out) c with
+      | some t => hex (utf8 t)
       | none => "crash"
     | _, _, _, _, _, _, _ => "bad-op"
   | _ => "bad-op"
